@@ -24,6 +24,9 @@ type progCtx struct {
 	LockTime uint32 `json:"locktime"`
 	Sequence uint32 `json:"sequence"`
 	Sats     uint64 `json:"sats"`
+	// NilUnlock: the checked input carries no unlocking script; the scripts are
+	// handed over with WithScripts next to WithTx (C08)
+	NilUnlock bool `json:"nil_unlock,omitempty"`
 }
 
 type progInput struct {
